@@ -479,7 +479,7 @@ func init() {
 		ID:    "C14",
 		Title: "Function execution strategies change timing, never results",
 		Rule: "rapid draws a table (1-6 rows; the string column may hold NULL, which the instrumented function passes through), an optional WHERE, a select list of 1-5 calls of instrumented user functions with distinct tags under the " +
-			"qualifiers none / ASYNC / SPINASYNC / SPIN / ONCE (at most one ONCE per function name), and a release permutation; the harness owns the " +
+			"qualifiers none / ASYNC / SPINASYNC / SPIN / ONCE (at most one ONCE per function name; ONCE also over a column: one invocation, its argument the value of a selected row, every row shows that one value), and a release permutation; the harness owns the " +
 			"completion order of every ASYNC/SPINASYNC/SPIN call through a gate (call i finishes only after the calls ranked before it in the drawn " +
 			"permutation: arrival order, reversed and random permutations; a pump lets a sequential engine proceed). Observed when Exec returns: " +
 			"every ASYNC and SPINASYNC call was invoked exactly once per selected row and has completed; every ASYNC column holds the value of the " +
